@@ -1,4 +1,5 @@
 (* C06 — Unmatched requests resolve HEAD->GET, fallback route, 405/Allow, 404 in order. Property theorems only. *)
+From Rux Require Import Base Str Consts Norm Chain Dispatch Reg Pattern Pat Cache Table PatTable RoundTrip SelectFacts TableLink Sys SysFacts SysHistory SysMore SysEnd.
 From Rux Require Import Base Str Consts Norm NormFacts Writer Chain Dispatch Pattern Pat Cache Table TableFacts TableMore PatTable SelectFacts RoundTrip TableLink.
 Open Scope Z_scope.
 
@@ -57,6 +58,72 @@ Theorem C06_string_level_order : forall o es rt m p path,
   qsel (fst (quick_match rt m p)) = ladder o (map entry_sroute es) m path.
 Proof. exact string_level_ladder. Qed.
 
+(* end to end (SysEnd.v), router built by a registration program with a printable table, after any history, cache on or
+   off: when the ladder says "not allowed" / "not found" the request is dispatched to the NotAllowed / NotFound target,
+   the chain is the global middleware followed by the custom handlers or the default one ... *)
+Theorem C06_end_to_end_not_allowed : forall progs hooks o ss s es h m p path al sc pooled,
+  sys_build o ss = Ok s -> table_of es s -> o_intercept o = [] ->
+  hist_no_slash h -> no_slash m -> format_path (o_strict o) p = Ok path ->
+  ladder o (map entry_sroute es) m path = QNotAllowed al ->
+  let s' := sys_run progs hooks s h in
+  fst (quick_match (s_rt s') m p) = QNotAllowed al /\
+  fst (sys_serve progs hooks s' m p sc pooled) =
+    Some (handle_request (sys_cfg progs hooks s) (str_eqb m OPTIONS)
+            (TNotAllowed al (map progs (s_noallowed s))) (p_x (ctx_init sc pooled))) /\
+  forall is_opt x,
+    fst (assemble (sys_cfg progs hooks s) is_opt (TNotAllowed al (map progs (s_noallowed s))) x) =
+      map progs (den_globals ss) ++
+      (match s_noallowed s with [] => [default_405 is_opt al] | hs => map progs hs end).
+Proof. exact sys_not_allowed. Qed.
+
+Theorem C06_end_to_end_not_found : forall progs hooks o ss s es h m p path sc pooled,
+  sys_build o ss = Ok s -> table_of es s -> o_intercept o = [] ->
+  hist_no_slash h -> no_slash m -> format_path (o_strict o) p = Ok path ->
+  ladder o (map entry_sroute es) m path = QNotFound ->
+  let s' := sys_run progs hooks s h in
+  fst (quick_match (s_rt s') m p) = QNotFound /\
+  fst (sys_serve progs hooks s' m p sc pooled) =
+    Some (handle_request (sys_cfg progs hooks s) (str_eqb m OPTIONS)
+            (TNotFound (map progs (s_noroute s))) (p_x (ctx_init sc pooled))) /\
+  forall is_opt x,
+    fst (assemble (sys_cfg progs hooks s) is_opt (TNotFound (map progs (s_noroute s))) x) =
+      map progs (den_globals ss) ++
+      (match s_noroute s with [] => [default_404] | hs => map progs hs end).
+Proof. exact sys_not_found. Qed.
+
+(* ... and with no custom handlers, no global middleware and no OnError hook the response is: 405 with the text of
+   http.Error (200 and an empty body for OPTIONS), the allowed methods stored in the context (the Allow header is the
+   effect list effs_405: sorted, joined by ", "); resp. 404 with its text *)
+Theorem C06_end_to_end_405 : forall progs hooks o ss s es h m p path al sc pooled,
+  sys_build o ss = Ok s -> table_of es s -> o_intercept o = [] ->
+  hist_no_slash h -> no_slash m -> format_path (o_strict o) p = Ok path ->
+  ladder o (map entry_sroute es) m path = QNotAllowed al ->
+  s_noallowed s = [] -> den_globals ss = [] -> snd hooks = None ->
+  let s' := sys_run progs hooks s h in
+  let is_opt := str_eqb m OPTIONS in
+  exists x,
+    fst (sys_serve progs hooks s' m p sc pooled) = Some (Done x [0%nat]) /\
+    x = final_commit (apply_all xctx eff apply_eff (effs_405 is_opt al)
+                        (with_data [(k_allowed, DStrs al)] (x_init sc))) /\
+    status (w x) = (if is_opt then 200 else 405) /\
+    log (w x) = (if is_opt then [WH 200] else error_log sc msg_405 405) /\
+    data x = [(k_allowed, DStrs al)] /\ trace x = [] /\ errors x = [].
+Proof. exact sys_default_405. Qed.
+
+Theorem C06_end_to_end_404 : forall progs hooks o ss s es h m p path sc pooled,
+  sys_build o ss = Ok s -> table_of es s -> o_intercept o = [] ->
+  hist_no_slash h -> no_slash m -> format_path (o_strict o) p = Ok path ->
+  ladder o (map entry_sroute es) m path = QNotFound ->
+  s_noroute s = [] -> den_globals ss = [] -> snd hooks = None ->
+  let s' := sys_run progs hooks s h in
+  exists x,
+    fst (sys_serve progs hooks s' m p sc pooled) = Some (Done x [0%nat]) /\
+    x = final_commit (apply_all xctx eff apply_eff effs_404 (x_init sc)) /\
+    status (w x) = 404 /\
+    log (w x) = error_log sc msg_404 404 /\
+    data x = [] /\ trace x = [] /\ errors x = [].
+Proof. exact sys_default_404. Qed.
+
 Print Assumptions C06_order.
 Print Assumptions C06_cached.
 Print Assumptions C06_intercept.
@@ -66,3 +133,7 @@ Print Assumptions C06_default_405_options.
 Print Assumptions C06_default_404.
 Print Assumptions C06_legacy_F14_refuted.
 Print Assumptions C06_string_level_order.
+Print Assumptions C06_end_to_end_not_allowed.
+Print Assumptions C06_end_to_end_not_found.
+Print Assumptions C06_end_to_end_405.
+Print Assumptions C06_end_to_end_404.
